@@ -595,6 +595,29 @@ pub fn generate(profile: &str, seed: u64, count: usize) -> Vec<Scenario> {
                 }
                 sc
             }
+            "hugefill" => {
+                // a cache whose weight is near i64::MAX, filled to within a few hundred units of it, then puts a little larger than
+                // the room that is left (C01 / C17: the fit test at magnitudes where floating point and 64-bit sums give way)
+                let mut kn = knobs("mix");
+                kn.callers = (1, 1); kn.ops = (6, 14); kn.keys = (3, 5); kn.mixw = [60, 0, 12, 18, 4, 6, 0]; kn.ttl_pct = 15; kn.await_pcts = vec![100];
+                kn.stall_sweeper_pct = 50; kn.shutdown_pct = 0; kn.heavy_pct = 0;
+                let mut sc = gen.history(&name, &kn);
+                let big = crate::driver::BIG;
+                let below_max = *[1000i64, 4000, 100_000, 10_000_000].get(gen.rng.gen_range(0..4)).unwrap();
+                let room = gen.rng.gen_range(50..400i64);
+                sc.cfg.max_weight = big + 1 + below_max;                       // i64::MAX - below_max
+                sc.cfg.default_weight_fn = false;
+                for (_, program) in sc.programs.iter_mut() {
+                    let mut first = true;
+                    for o in program.iter_mut() {
+                        if o.op == "put" {
+                            if first { o.w = big + 1 + below_max + room; o.k = 0; first = false; }   // cache weight - room
+                            else { o.w = room + gen.rng.gen_range(1..300); if o.k == 0 { o.k = 1; } }
+                        }
+                    }
+                }
+                sc
+            }
             "evictrace" => {
                 let mut sc = gen.history(&name, &knobs("evictrace"));
                 for (_, program) in sc.programs.iter_mut() {
